@@ -191,8 +191,10 @@ def jobs(tier):
     out = [Job('C16', 'c16:h_dtc_encode', {}, W=64, wall=600, cross=not q), Job('C16', 'c16:h_dtc_decode', {}, W=64, wall=600, cross=not q),
            Job('C16', 'c16:h_lamps', {}, W=40, wall=300, max_paths=5000, validate=3),
            Job('C16', 'c16:h_dm22', {'which': 'act'}, W=40, wall=600, cross=not q), Job('C16', 'c16:h_dm22', {'which': 'pa'}, W=40, wall=600, cross=not q)]
-    for n in ([1, 2, 3, 15] if q else list(range(1, 21)) + [100, 400, 445]):
+    for n in ([1, 2, 3, 15, 64] if q else list(range(1, 21)) + [64, 100, 400, 445]):
         cycle = '1' if n <= 15 else ('2' if n <= 30 else ('8' if n <= 100 else '30'))
+        if n == 64:
+            cycle = '3'
         out.append(Job('C16', 'c16:h_dm1', {'n': n, 'cycle': cycle, 'sym_lamps': 2 if q else (4 if n <= 2 else 2), 'cycles': 2},
                        W=40, wall=300 if q else 1800, max_paths=5000, validate=1))
     out.append(Job('C16', 'c16:h_dm1', {'n': 1, 'cycle': '1/5', 'sym_lamps': 1, 'cycles': 3}, W=40, wall=300, validate=1))
